@@ -21,6 +21,8 @@ import (
 
 type Prog struct {
 	sigs map[string]recordedSig
+	gw     map[string]map[string]bool
+	gwOnce sync.Once
 	repoDir     string
 	verifDir    string
 	modPath     string
@@ -456,4 +458,87 @@ func cmdRecordSignatures(o *options) int {
 	}
 	fmt.Printf("recorded %d signatures in %s\n", len(out), path)
 	return 0
+}
+
+// ghostWriters: for each ghost variable, the functions (package path + target, variants merged) whose contracts
+// assign it in a hook or name it in a modifies clause. fnspecs and lemmas that name it count as writers too.
+func (p *Prog) ghostWriters() map[string]map[string]bool {
+	p.gwOnce.Do(func() {
+		p.gw = map[string]map[string]bool{}
+		add := func(g, who string) {
+			if p.gw[g] == nil {
+				p.gw[g] = map[string]bool{}
+			}
+			p.gw[g][who] = true
+		}
+		scan := func(fc *FuncContract, who string) {
+			for _, h := range fc.Hooks {
+				for _, st := range h.Stmts {
+					if st.Kind == "assign" {
+						add(st.Target, who)
+					}
+				}
+			}
+			for _, m := range fc.Modifies {
+				for g := range p.cs.Ghosts {
+					if containsIdent(m.Text, g) {
+						add(g, who)
+					}
+				}
+			}
+		}
+		for _, fc := range p.cs.Funcs {
+			scan(fc, fc.PkgPath+"."+fc.Target)
+		}
+		for name, fc := range p.cs.FnSpecs {
+			scan(fc, "fnspec:"+name)
+		}
+	})
+	return p.gw
+}
+
+func containsIdent(text, id string) bool {
+	for i := 0; i+len(id) <= len(text); i++ {
+		if text[i:i+len(id)] != id {
+			continue
+		}
+		before := i == 0 || !isIdentByte(text[i-1])
+		after := i+len(id) == len(text) || !isIdentByte(text[i+len(id)])
+		if before && after {
+			return true
+		}
+	}
+	return false
+}
+
+func isIdentByte(c byte) bool {
+	return c == '_' || c >= '0' && c <= '9' || c >= 'a' && c <= 'z' || c >= 'A' && c <= 'Z'
+}
+
+// scratchGhostOwner: a ghost variable that exactly one function's contract writes and that this function resets in a
+// hook at its entry is scratch state of that function (its value never flows in from a caller): it returns the
+// owner (package path + target), or "" for ordinary ghost variables.
+func (p *Prog) scratchGhostOwner(g string) string {
+	ws := p.ghostWriters()[g]
+	if len(ws) != 1 {
+		return ""
+	}
+	for who := range ws {
+		for _, fc := range p.cs.Funcs {
+			if fc.PkgPath+"."+fc.Target != who {
+				continue
+			}
+			for _, h := range fc.Hooks {
+				if h.When != "entry" {
+					continue
+				}
+				for _, st := range h.Stmts {
+					if st.Kind == "assign" && st.Target == g && st.Index == nil {
+						return who
+					}
+				}
+			}
+		}
+	}
+	return ""
 }
